@@ -6,28 +6,28 @@
     of.  The queue is kept as a list in scheduling order and the minimum is *selected*;
     [Proofs/EventLoopP.v] shows the selected element is the only one the contract
     permits, so any correct heap agrees with this model. *)
-From Coq Require Import List Arith Bool.
+From Coq Require Import List Arith NArith Bool.
 Import ListNotations.
-Require Import Arith.
+From GS Require Import Num.
 
 Section EventLoop.
 Context {F : Type} (A : ArithOps F) {P : Type}.
 
-Record event : Type := mkEv { ev_ts : F; ev_seq : nat; ev_pl : P }.
+Record event : Type := mkEv { ev_ts : F; ev_seq : N; ev_pl : P }.
 
 (** Event.__lt__ *)
 Definition ev_lt (a b : event) : bool :=
-  if feqb A (ev_ts a) (ev_ts b) then Nat.ltb (ev_seq a) (ev_seq b)
+  if feqb A (ev_ts a) (ev_ts b) then N.ltb (ev_seq a) (ev_seq b)
   else fltb A (ev_ts a) (ev_ts b).
 
-Record eloop : Type := mkEL { el_q : list event; el_now : F; el_seq : nat }.
+Record eloop : Type := mkEL { el_q : list event; el_now : F; el_seq : N }.
 
-Definition el_init : eloop := mkEL [] (f0 A) 0.
+Definition el_init : eloop := mkEL [] (f0 A) 0%N.
 
 (** schedule_event: refuses a timestamp earlier than the current time. *)
 Definition el_schedule (l : eloop) (ts : F) (p : P) : option eloop :=
   if fltb A ts (el_now l) then None   (* EventLoopException *)
-  else Some (mkEL (el_q l ++ [mkEv ts (el_seq l) p]) (el_now l) (S (el_seq l))).
+  else Some (mkEL (el_q l ++ [mkEv ts (el_seq l) p]) (el_now l) (N.succ (el_seq l))).
 
 Fixpoint q_min (m : event) (q : list event) : event :=
   match q with
@@ -35,10 +35,10 @@ Fixpoint q_min (m : event) (q : list event) : event :=
   | x :: r => q_min (if ev_lt x m then x else m) r
   end.
 
-Fixpoint q_remove (s : nat) (q : list event) : list event :=
+Fixpoint q_remove (s : N) (q : list event) : list event :=
   match q with
   | [] => []
-  | x :: r => if Nat.eqb (ev_seq x) s then r else x :: q_remove s r
+  | x :: r => if N.eqb (ev_seq x) s then r else x :: q_remove s r
   end.
 
 (** peek_event *)
